@@ -264,6 +264,13 @@ def main(run, shard=(0, 1)) -> None:
         in_core = len(s) <= L and all(c in ALPHABET for c in s)
         run.case([s, m], bool(ESC_CHARS.intersection(s)) and not in_core,
                  sample={'s': s, 'multiline': m, 'escaped': tk.escape_text(s, m)} if i < 3 else None, tag='random')
+    # ---- unusual sizes: very long strings (plain, all-escapes, alternating)
+    for k, s_long in enumerate(('a' * 50000, '\\' * 20000, '"\n' * 15000, ('ab\t"\\\r\n' * 4000), '\n' * 30000 + 'x', '\ufeff' * 9000)):
+        if mine(k, shard):
+            for m in (True, False):
+                check_one(run, s_long, m, 'long')
+            run.case_bulk(2, 2)
+            run.count('long_strings')
     # ---- every BMP code point once (thorough), every code point < 0x300 (quick)
     top = 0x10000 if thorough else 0x300
     for cp in range(top):
